@@ -10,7 +10,7 @@ PID = 'C13'
 LEVEL = 'proof'
 LEAN_TARGETS = ['Swiftness.Props.C13']
 BUILDS = {'quick': [('k160', 'stone5', 'full'), ('k160', 'stone6', 'full')], 'thorough': [('k160', 'stone5', 'full'), ('k160', 'stone6', 'full')]}
-RULE = ('bases: random public inputs (0..12 main-page cells, 0..3 continuous page headers, 2..11 segments, with/without 340 dynamic params, '
+RULE = ('bases: random public inputs (0..12 main-page cells, 0..3 continuous page headers, 2..11 segments, with/without 340 dynamic params (values up to 2^64-1; mutations +1, +2^31, +2^32, +2^33, +2^47, +2^63), '
         'edge field values); per base one case per single-field change (step count, range-check bounds, layout code, a dynamic parameter, each '
         'segment bound, padding cell, a main-page address, a main-page value, each page-header field), main-page cell insertion / deletion / '
         'adjacent transposition, friendly-layer count change; aux = the base itself (seed must differ, except: header prod, and the friendly '
@@ -22,7 +22,9 @@ TRUSTED = ['Python relational oracle over the real code outputs']
 
 def rand_pi(rng):
     return {'lns': rng.below(40), 'rmin': rng.below(1 << 16), 'rmax': rng.below(1 << 16), 'layout': rng.choice([0x726563757273697665, rng.felt()]),
-            'dyn': [rng.below(1 << 20) for _ in range(340)] if rng.chance(1, 4) else None,
+            # usize-valued: small, around 2^32 and up to 2^64-1 (every bit of a dynamic parameter is bound)
+            'dyn': [rng.choice([rng.below(1 << 20), rng.below(1 << 20), (1 << 32) - 1, 1 << 32, (1 << 32) + rng.below(9), 1 << 47, (1 << 64) - 1, rng.bits(64)])
+                    for _ in range(340)] if rng.chance(1, 3) else None,
             'segs': [[rng.edge_felt(), rng.edge_felt()] for _ in range(rng.choice([2, 6, 7, 11]))],
             'pad': [rng.edge_felt(), rng.edge_felt()],
             'page': [[rng.below(1 << 30), rng.edge_felt()] for _ in range(rng.choice([0, 1, 2, 5, 12]))],
@@ -59,8 +61,9 @@ def cases(rng, tier, feats, drv_ok):
         mut('range_check_max', lambda m: m.__setitem__('rmax', m['rmax'] + 1))
         mut('layout', lambda m: m.__setitem__('layout', (m['layout'] + 1) % P))
         if b['dyn'] is not None:
-            j = rng.below(340)
-            mut('dynamic_param', lambda m: m['dyn'].__setitem__(j, m['dyn'][j] + 1))
+            for delta in (1, 1 << 31, 1 << 32, 1 << 33, 1 << 47, 1 << 63):
+                j = rng.below(340)
+                mut('dynamic_param', lambda m, j=j, delta=delta: m['dyn'].__setitem__(j, (m['dyn'][j] + delta) % (1 << 64)))
         for i in range(len(b['segs'])):
             for k in (0, 1):
                 if len(b['segs']) <= 3 or rng.chance(1, 3):
